@@ -55,10 +55,12 @@ def run(chk):
         raise tlc.TLCError("GqlSubscribe liveness violated\n" + r.tail)
     behs = generate(chk, 1, SETUPS)
     chk.count("behaviours events<=1 (exhaustive)", len(behs))
-    sim = generate(chk, 3, {"ok-sync", "ok-async"}, simulate=6000 if chk.quick else 120000)
+    sim = generate(chk, 3, {"ok-sync", "ok-async"}, simulate=6000 if chk.quick else 12000)   # (num is per TLC worker: x16 behaviours)
     sim = [b for b in sim if len(b["evs"]) >= 2]
     if chk.quick:
         sim = sim[:2500]
+    else:
+        sim = sim[:150000]
     chk.exhaustive = False
     chk.count("behaviours 2-3 events (simulated)", len(sim))
     behs += sim
